@@ -405,12 +405,12 @@ Proof.
 Qed.
 
 (* non-vacuity: BCCH running, CCCH requested one frame after a BCCH block was started (tick 0 starts the block of frames 2..5, safe_fn = 4):
-   the ticks of frames 1, 2, 3 are not safe and leave the request pending, the tick of frame 4 takes it over; a disabled task is dropped at once *)
+   the ticks of frames 1, 2, 3 are not safe and leave the request pending, the tick of frame 4 takes it over (and starts the CCCH block of frames 6..9: safe_fn = 8); a disabled task is dropped at once *)
 Example ex_deferred_enable :
   let s0 := mf_run [OpEnable fw_MF_TASK_BCCH_NORM; OpTick 0; OpEnable fw_MF_TASK_CCCH] mf_reset in
   ms_safe s0 = 4 /\ mf_inv 0 s0 = true /\
   map (fun c => mf_safe_test c s0) [1; 2; 3; 4] = [false; false; false; true] /\
   mf_run [OpTick 1; OpTick 2; OpTick 3] s0 = mkmf 1 5 4 /\
-  mf_run [OpTick 1; OpTick 2; OpTick 3; OpTick 4] s0 = mkmf 5 5 4294967295 /\
+  mf_run [OpTick 1; OpTick 2; OpTick 3; OpTick 4] s0 = mkmf 5 5 8 /\
   mf_run [OpDisable fw_MF_TASK_BCCH_NORM; OpTick 1] s0 = mkmf 0 4 4.
 Proof. vm_compute. repeat split; reflexivity. Qed.
